@@ -249,7 +249,9 @@ template<class T, class F, Form form>
     std::vector<F> const xs = inputs<T, F>(tier.M, tier.Mu);
     Big const maxT(vals::max_v<T>());
     Rat const one(Big(1));
-    int hangs_confirmed = 0;
+    // one designated shard per program confirms its first hang with a long watchdog (2 s quick / 5 s thorough)
+    bool const confirm_here = int(vf::fnv(name) % uint64_t(vf::g.nshards)) == vf::g.shard;
+    bool hang_confirmed = false;
     constexpr size_t ROW = 64;
     for (size_t r0 = 0; r0 < xs.size(); r0 += ROW) {
         if (!vf::my_row()) continue;
@@ -280,10 +282,24 @@ template<class T, class F, Form form>
             }
             bool const negx = std::signbit(x);
             bool const exact = xn.abs() <= maxT && xd <= maxT;
-            // semantic position of the input
-            const char* mag = xn.is_zero() ? "zero" : (ax * Rat(maxT) < one ? "below_1_over_max" : (ax < one ? "below_1" : "ge_1"));
+            // ---- semantic position of the input (exact predicates, independent of CNL)
+            //   mag: zero | below_1_over_max (0 < |x| < 1/max(T)) | below_1 | ge_1 | at_max (|x| == max(T))
+            //   rep: zero | integer | exact_ratio (x = n/d, n and d representable in T) | inexact
+            //   for inexact inputs, L < |x| < R being the adjacent fractions with components in T:
+            //   nbr_converts (L or R converts back to x in F, i.e. some in-range fraction is "equal to x in
+            //   F arithmetic") | nbr_none (not even the adjacent in-range fractions convert back to x)
+            const char* mag = xn.is_zero() ? "zero" : (ax == Rat(maxT) ? "at_max" : (ax * Rat(maxT) < one ? "below_1_over_max" : (ax < one ? "below_1" : "ge_1")));
             const char* rep = xn.is_zero() ? "zero" : (xd == Big(1) ? "integer" : (exact ? "exact_ratio" : "inexact"));
-            std::string const region = std::string(mag) + "/" + rep;
+            std::string region = std::string(mag) + "/" + rep;
+            Nbr nb;
+            bool nearer_is_left = false;
+            if (!exact) {
+                nb = neighbours(xn.abs(), xd, maxT);
+                bool const conv = convert_back<F>(nb.ln, nb.ld) == ax || convert_back<F>(nb.rn, nb.rd) == ax;
+                region += conv ? "/nbr_converts" : "/nbr_none";
+                // |x| - L <= R - |x|  <=>  2 |x| <= L + R   (in integers: denormal inputs have 1000-bit denominators)
+                nearer_is_left = Big(2) * xn.abs() * nb.ld * nb.rd <= (nb.ln * nb.rd + nb.rn * nb.ld) * xd;
+            }
 
             T gn{}, gd{};
             vf::Outcome o = vf::run([&] {
@@ -292,29 +308,14 @@ template<class T, class F, Form form>
                 gd = T(f.denominator);
             });
             vf::validated();
-            vf::counted(!exact);
+            vf::counted(!(xd == Big(1)));
             if (vf::want_sample()) vf::sample(name + " " + id() + " -> " + (o.ok() ? vf::to_s(gn) + "/" + vf::to_s(gd) : o.str()));
             if (!o.ok()) {
-                std::string kind = vf::kind_name(o.kind), what = kind;
-                if (o.kind == vf::ABORT_HOOK) {
-                    // cnl_abort(<path>/make_fraction.h:87 assert: n0 <= ...) -> a stable label
-                    std::string msg = o.msg;
-                    size_t p = msg.find("assert: ");
-                    std::string cond = p == std::string::npos ? msg : msg.substr(p + 8);
-                    std::string lab;
-                    for (char c : cond) {
-                        if (std::isalnum((unsigned char)c)) lab += c;
-                        else if (c == '<') lab += "_lt_";
-                        else if (c == '>') lab += "_gt_";
-                        else if (c == '=') lab += "eq_";
-                        if (lab.size() > 40) break;
-                    }
-                    size_t q = msg.find("make_fraction.h:");
-                    std::string line = q == std::string::npos ? "" : msg.substr(q + 16, msg.find(' ', q) - q - 16);
-                    what = "cnl_abort/assert_line" + line + "_" + lab;
-                }
-                std::string detail = name + "(" + id() + "): " + o.str();
-                if (o.kind == vf::HANG && hangs_confirmed < 1) {
+                std::string const kind = vf::kind_name(o.kind);
+                std::string what = kind;
+                if (o.kind == vf::ABORT_HOOK) what = "cnl_abort/" + assert_label(o.msg);
+                std::string detail = name + "(" + id() + " = " + xr.str() + "): " + o.str();
+                if (o.kind == vf::HANG && !hang_confirmed && confirm_here) {
                     // confirm the first hang of the program with a long watchdog
                     int const keep = vf::g.hang_ticks;
                     vf::g.hang_ticks = VF_TIER ? 100 : 40;
@@ -323,7 +324,7 @@ template<class T, class F, Form form>
                         gn = T(f.numerator);
                     });
                     vf::g.hang_ticks = keep;
-                    ++hangs_confirmed;
+                    hang_confirmed = true;
                     detail += std::string(o2.kind == vf::HANG ? " (confirmed: still running after " : " (NOT confirmed after ") + (VF_TIER ? "5" : "2") + " s CPU: " + o2.str() + ")";
                     if (o2.kind != vf::HANG) what = "slow_not_hang";
                 }
@@ -348,14 +349,14 @@ template<class T, class F, Form form>
             Rat const err = (f - xr).abs();
             Rat const scale = ax > one ? ax : one;
             // err < scale * 2^(4-D)  <=>  err * 2^(D-4) < scale
-            bool const within = D >= 4 ? (err * Rat(Big::pow2(D - 4)) < scale) : (err < scale * Rat(Big::pow2(4 - D)));
+            bool const within = err * Rat(Big::pow2(D - 4)) < scale;
             if (exact) {
                 if (f == xr) {
                     vf::outcome(std::string("ok_exact/") + rep);
                     continue;
                 }
                 bool const roundtrip = convert_back<F>(fn, fd) == xr;
-                vf::outcome("not_exact");
+                vf::outcome(roundtrip ? "not_exact_but_converts_back" : "not_exact");
                 vf::violation(std::string("value/exact_ratio_not_reproduced/") + (roundtrip ? "converts_back_to_x" : "does_not_convert_back") + (within ? "/within_error_bound/" : "/beyond_error_bound/") + region, id(),
                               detail0 + ", but x is exactly " + xr.str() + " with both components representable");
                 continue;
@@ -371,8 +372,12 @@ template<class T, class F, Form form>
                 vf::violation("value/error_bound/" + region, id(), detail0 + ": |f-x| >= max(1,|x|)*2^" + std::to_string(4 - D));
                 continue;
             }
-            if (fn.is_zero()) vf::outcome(std::string("ok_rounds_to_zero/") + mag);
-            else vf::outcome(std::string("ok_approx/") + mag);
+            // accepted: how good is it? (the nearer / the other adjacent in-range fraction / something else)
+            Rat const af = f.abs();
+            bool const isL = af == Rat(nb.ln, nb.ld), isR = af == Rat(nb.rn, nb.rd);
+            const char* q = (isL || isR) ? ((isL == nearer_is_left) ? "nearest" : "adjacent") : "other";
+            if (fn.is_zero()) vf::outcome(std::string("ok_rounds_to_zero/") + mag + "/" + q);
+            else vf::outcome(std::string("ok_approx/") + mag + "/" + q);
         }
     }
 }
